@@ -228,8 +228,9 @@ func run(c Case) (*failure, string, bool, string) {
 
 func check(t vkit.TB, c Case) {
 	f, class, nt, sig := run(c)
-	if f != nil && f.timing {
-		// confirm once: a timing verdict must reproduce
+	if f != nil && f.timing && !vkit.IsKnown(f.key) {
+		// confirm once: a timing verdict must reproduce (a listed finding is only counted,
+		// never reported, so it is not worth a second bounded wait)
 		f2, class2, nt2, sig2 := run(c)
 		if f2 == nil || f2.key != f.key {
 			vkit.Skipped(1)
